@@ -21,7 +21,23 @@ def generic(*names):
     return deco
 
 
+def _forcing(f):
+    """Option / Result method models read `.tag`: a solver-chosen tag (checked arithmetic, try_from) is decided first, by forking"""
+    wants = getattr(f, "wants_path", False)
+
+    def g(m, *args):
+        for a in (args[1:3] if wants else args[0:2]):
+            v = deref(a) if isinstance(a, (Ref, Agg)) else None
+            if isinstance(v, Agg) and v.ty in ("Option", "Result") and v.tag is None and v.symtag is not None: m.force_tag(v)
+        return f(m, *args)
+    g.wants_path = wants
+    return g
+
+
 def install(world):
+    for k in list(M):
+        if k.startswith(("std::option::Option::", "std::result::Result::")) and not getattr(M[k], "_forcing", False):
+            M[k] = _forcing(M[k]); M[k]._forcing = True
     world.models.update(M)
     world.generic_models.update(G)
     world.ext_structs.update({"Complex": ["re", "im"], "Range": ["start", "end"], "RangeInclusive": ["start", "end", "exhausted"],
